@@ -65,27 +65,9 @@ Proof.
   intros H. apply dists_get_params_flat; [apply names_ok_tstages_NoDup, H | apply names_ok_dist_keys, H].
 Qed.
 
-Lemma sel_params_heads tri sel es k : In k (map fst (sel_params tri sel es)) ->
-  exists e s, In e es /\ sel e = true /\ k = [e_name e; s] /\ In s ["spread"; "growth"; "micro"].
-Proof.
-  unfold sel_params. rewrite map_flat_map'. intros H. apply in_flat_map in H. destruct H as (e & He & Hk).
-  destruct (sel e) eqn:Es; [|destruct Hk]. rewrite pre_keys in Hk. apply in_map_iff in Hk. destruct Hk as (t & <- & Ht).
-  rewrite edge_params_cases in Ht. exists e.
-  destruct (is_growth e); [|destruct (has_micro tri e)]; cbn in Ht;
-    repeat (destruct Ht as [<-|Ht]; [eexists; repeat split; try eassumption; cbn; auto|]); destruct Ht.
-Qed.
 
-Lemma dists_items_heads ds k : In k (map fst (dists_items ds)) ->
-  exists t s, In t (map fst ds) /\ k = [t; s] /\ In s (dist_kw_names ds).
-Proof.
-  unfold dists_items, dist_kw_names. rewrite map_flat_map'. intros H. apply in_flat_map in H. destruct H as (td & Htd & Hk).
-  rewrite pre_keys in Hk. apply in_map_iff in Hk. destruct Hk as (t & <- & Ht).
-  destruct (snd td) as [p|f kws] eqn:Ed; cbn [dist_local map] in Ht; [destruct Ht|].
-  rewrite map_map in Ht. cbn [fst] in Ht. apply in_map_iff in Ht. destruct Ht as (kv & <- & Hkv).
-  exists (fst td), (fst kv). repeat split.
-  - apply in_map, Htd.
-  - apply in_flat_map. exists td. split; [exact Htd|]. rewrite Ed. apply in_map, Hkv.
-Qed.
+
+
 
 Lemma u_tumor_keys_NoDup u : u_names_ok u = true -> NoDup (map fst (u_tumor_items u)).
 Proof.
@@ -397,4 +379,369 @@ Proof.
     destruct (dists_put _ _ _); [discriminate | exact Hs].
   - rewrite <- plan_app in Hall. pose proof (u_set_spread_fail u a kw H Hall) as Hf.
     destruct (u_set_spread_params u a kw) as [u' o]. cbn [snd] in Hf. subst o. reflexivity.
+Qed.
+
+Lemma vals_app l1 l2 : vals (l1 ++ l2) = vals l1 ++ vals l2.
+Proof. apply map_app. Qed.
+Lemma vals_length l : length (vals l) = length l.
+Proof. apply map_length. Qed.
+Lemma vals_inj l1 l2 : vals l1 = vals l2 -> l1 = l2.
+Proof. revert l2. induction l1 as [|a l1 IH]; intros [|b l2] H; cbn in H; try discriminate; [reflexivity|]. injection H as -> H. f_equal. apply IH, H. Qed.
+
+(** decomposition of an accepted call *)
+Lemma u_accepts_inv u a kw : u_accepts u (u_new u a kw) = true ->
+  exists qT qL ds',
+    all_unit (plan (u_lk kw) (u_tumor_items u) a) = Some qT /\
+    all_unit (plan (u_lk kw) (u_lnl_items u) (skipn (length (u_tumor_items u)) a)) = Some qL /\
+    dists_put (u_maxt u) (u_dists u) (plan (u_lk kw) (u_dist_items u) (skipn (u_num_spread u) a)) = Some ds'.
+Proof.
+  intros Hacc. unfold u_accepts in Hacc. rewrite u_new_split, app_assoc in Hacc.
+  assert (Hlen : length (plan (u_lk kw) (u_tumor_items u) a ++ plan (u_lk kw) (u_lnl_items u) (skipn (length (u_tumor_items u)) a))
+                 = u_num_spread u) by (unfold u_num_spread; rewrite !app_length, !plan_length; reflexivity).
+  rewrite firstn_app_len, skipn_app_len in Hacc by exact Hlen. rewrite all_unit_app in Hacc.
+  destruct (all_unit (plan (u_lk kw) (u_tumor_items u) a)) as [qT|]; [|discriminate].
+  destruct (all_unit (plan (u_lk kw) (u_lnl_items u) _)) as [qL|]; [|discriminate].
+  destruct (dists_put _ _ _) as [ds'|]; [|discriminate]. exists qT, qL, ds'. repeat split.
+Qed.
+
+Lemma u_put_names_ok u qT qL ds' new : u_names_ok u = true ->
+  dists_put (u_maxt u) (u_dists u) new = Some ds' -> length new = length (u_dist_items u) ->
+  u_names_ok (u_put u qT qL ds') = true.
+Proof.
+  intros H HD Hl. destruct (dists_put_spec _ _ _ _ HD Hl) as (qD & _ & _ & Hn).
+  destruct (dists_put_shape _ _ _ _ HD Hl) as (Hk & Hko & _).
+  unfold u_names_ok in *. rewrite u_put_edge_names. unfold u_tstages in *. rewrite u_put_dists, Hn, Hk, Hko. exact H.
+Qed.
+
+Lemma u_set_params_struct u a kw : u_names_ok u = true -> u_accepts u (u_new u a kw) = true ->
+  exists qT qL qD ds',
+    u_set_params u a kw = (u_put u qT qL ds', Some (skipn (length (u_items u)) a)) /\
+    u_new u a kw = vals (qT ++ qL ++ qD) /\
+    length qT = length (u_tumor_items u) /\ length qL = length (u_lnl_items u) /\
+    dists_put (u_maxt u) (u_dists u) (vals qD) = Some ds' /\ length qD = length (u_dist_items u) /\
+    forallb in_unit (qT ++ qL) = true /\
+    u_items (u_put u qT qL ds') = combine (u_names u) (qT ++ qL ++ qD) /\
+    u_names_ok (u_put u qT qL ds') = true.
+Proof.
+  intros H Hacc. destruct (u_accepts_inv u a kw Hacc) as (qT & qL & ds' & HT & HL & HD).
+  pose proof (all_unit_length _ _ HT) as HlT. pose proof (all_unit_length _ _ HL) as HlL. rewrite plan_length in HlT, HlL.
+  destruct (all_unit_Some_vals _ _ HT) as [ET HuT]. destruct (all_unit_Some_vals _ _ HL) as [EL HuL].
+  assert (HlD : length (plan (u_lk kw) (u_dist_items u) (skipn (u_num_spread u) a)) = length (u_dist_items u)) by apply plan_length.
+  destruct (dists_put_spec _ _ _ _ HD HlD) as (qD & HuD & HiD & HnD). apply unwrap_Some in HuD.
+  exists qT, qL, qD, ds'.
+  assert (HlqD : length qD = length (u_dist_items u)) by (rewrite <- HlD, HuD, vals_length; reflexivity).
+  split; [apply u_set_params_ok; assumption|].
+  split; [rewrite u_new_split, ET, EL, HuD, !vals_app; reflexivity|].
+  split; [exact HlT|]. split; [exact HlL|]. split; [rewrite <- HuD; exact HD|]. split; [exact HlqD|].
+  split; [rewrite forallb_app, HuT, HuL; reflexivity|].
+  split.
+  - unfold u_items at 1. rewrite (u_put_tumor_items u qT qL ds' HlT), (u_put_lnl_items u qT qL ds' HlL), u_put_items_dist, HiD.
+    unfold u_names, u_items. rewrite !map_app.
+    rewrite combine_app by (rewrite map_length; lia). rewrite combine_app by (rewrite map_length; lia). reflexivity.
+  - apply (u_put_names_ok u qT qL ds' _ H HD HlD).
+Qed.
+
+Theorem uni_set_spec : C10_uni_set_spec_stmt.
+Proof.
+  intros u a kw H r. destruct (u_accepts u (u_new u a kw)) eqn:Hacc; [|apply u_set_params_fail; assumption].
+  destruct (u_set_params_struct u a kw H Hacc) as (qT & qL & qD & ds' & Hr & Hnew & HlT & HlL & HD & HlD & Hunit & Hitems & Hok').
+  exists (qT ++ qL ++ qD). subst r. rewrite Hr. cbn [fst snd].
+  split; [exact Hnew|]. split; [reflexivity|]. split; [rewrite (u_got_spec _ Hok'); exact Hitems|]. split; [exact Hok'|].
+  intros Hv. unfold u_vals_ok in *. apply andb_true_iff in Hv. destruct Hv as [Hve Hvd]. apply andb_true_iff. split.
+  - rewrite u_put_edges. rewrite forallb_app in Hunit. apply andb_true_iff in Hunit. destruct Hunit as [HuT HuL].
+    apply (edges_put_vals_ok (u_tri u) sel_lnl); [|exact HuL]. apply (edges_put_vals_ok (u_tri u) is_tumor_spread); [exact Hve | exact HuT].
+  - rewrite u_put_dists, u_put_maxt.
+    assert (Hl : length (vals qD) = length (dists_items (u_dists u))) by (rewrite vals_length; exact HlD).
+    destruct (dists_put_shape _ _ _ _ HD Hl) as (_ & _ & Hval). exact Hval.
+Qed.
+
+(** * Corollaries for the unilateral model *)
+Lemma u_names_nonempty u k : In k (u_names u) -> exists o t, k = o :: t.
+Proof.
+  unfold u_names, u_items. rewrite app_assoc, map_app, in_app_iff. intros [H|H].
+  - apply u_spread_key_head in H. destruct H as (n & s & -> & _). eauto.
+  - apply dists_items_heads in H. destruct H as (t & s & _ & -> & _). eauto.
+Qed.
+Lemma u_lk_nil k : u_lk [] k = None.
+Proof. destruct k; reflexivity. Qed.
+Lemma u_not_raise_accepts u a kw : u_names_ok u = true -> snd (u_set_params u a kw) <> None -> u_accepts u (u_new u a kw) = true.
+Proof. intros H Hr. destruct (u_accepts u (u_new u a kw)) eqn:E; [reflexivity|]. exfalso. apply Hr, u_set_params_fail; assumption. Qed.
+
+Lemma u_result_of_new u a kw v : u_names_ok u = true -> length v = length (u_items u) ->
+  u_new u a kw = vals v -> snd (u_set_params u a kw) <> None ->
+  snd (u_set_params u a kw) = Some (skipn (length (u_items u)) a)
+  /\ map snd (u_got (fst (u_set_params u a kw))) = v /\ map fst (u_got (fst (u_set_params u a kw))) = u_names u.
+Proof.
+  intros H Hl Hnew Hr. pose proof (uni_set_spec u a kw H) as Hs. cbv zeta in Hs.
+  rewrite (u_not_raise_accepts u a kw H Hr) in Hs. destruct Hs as (qs & Hq & Hsnd & Hgot & _).
+  rewrite Hnew in Hq. apply vals_inj in Hq. subst qs. split; [exact Hsnd|]. rewrite Hgot.
+  unfold u_names. rewrite map_snd_combine, map_fst_combine by (rewrite map_length; lia). split; reflexivity.
+Qed.
+
+Theorem uni_set_get_positional : C10_uni_set_get_positional_stmt.
+Proof.
+  intros u v rest H Hl r Hr. subst r.
+  assert (Hnew : u_new u (vals v ++ rest) [] = vals v).
+  { unfold u_new. apply plan_no_kw; [intros; apply u_lk_nil | exact Hl]. }
+  destruct (u_result_of_new u _ _ v H Hl Hnew Hr) as (H1 & H2 & H3). split; [|split; assumption].
+  rewrite H1. f_equal. apply skipn_app_len. rewrite vals_length. exact Hl.
+Qed.
+
+Lemma u_lk_kw_of u v k x : u_names_ok u = true -> length v = length (u_items u) ->
+  In (k, x) (combine (u_names u) (vals v)) -> u_lk (kw_of (u_names u) v) k = Some x.
+Proof.
+  intros H Hl Hin. assert (Hk : In k (u_names u)) by (apply in_combine_l in Hin; exact Hin).
+  destruct (u_names_nonempty u k Hk) as (o & t & ->). unfold u_lk, kw_of.
+  rewrite kw_last_NoDup by (rewrite map_fst_combine; [apply u_names_NoDup, H | unfold u_names; rewrite vals_length, map_length; lia]).
+  rewrite (kw_get_NoDup_In _ x); [reflexivity | | exact Hin].
+  rewrite map_fst_combine; [apply u_names_NoDup, H | unfold u_names; rewrite vals_length, map_length; lia].
+Qed.
+
+Theorem uni_set_get_keyword : C10_uni_set_get_keyword_stmt.
+Proof.
+  intros u v H Hl r Hr. subst r.
+  assert (Hnew : u_new u [] (kw_of (u_names u) v) = vals v).
+  { unfold u_new. apply plan_all_kw; [rewrite vals_length; exact Hl|]. intros k x Hin. apply u_lk_kw_of; assumption. }
+  destruct (u_result_of_new u _ _ v H Hl Hnew Hr) as (H1 & H2 & H3). split; [|split; assumption].
+  rewrite H1. destruct (length (u_items u)); reflexivity.
+Qed.
+
+Theorem uni_keyword_over_positional : C10_uni_keyword_over_positional_stmt.
+Proof.
+  intros u a kw k q H Hk Hlast r Hr. subst r. pose proof (uni_set_spec u a kw H) as Hs. cbv zeta in Hs.
+  rewrite (u_not_raise_accepts u a kw H Hr) in Hs. destruct Hs as (qs & Hq & _ & Hgot & _). rewrite Hgot.
+  destruct (u_names_nonempty u k Hk) as (o & t & ->).
+  assert (Hlk : u_lk kw (o :: t) = Some (V q)) by (unfold u_lk; rewrite Hlast; reflexivity).
+  apply kw_get_NoDup_In.
+  - rewrite map_fst_combine; [apply u_names_NoDup, H|]. unfold u_names. rewrite map_length.
+    apply (f_equal (@length _)) in Hq. unfold u_new in Hq. rewrite plan_length, vals_length in Hq. exact Hq.
+  - apply (plan_In (u_lk kw) (u_items u) a qs _ q Hq Hk Hlk).
+Qed.
+
+Theorem uni_specific_over_global : C10_uni_specific_over_global_stmt.
+Proof.
+  intros u a kw o t q H Hk Hnone Hglob r Hr. subst r. pose proof (uni_set_spec u a kw H) as Hs. cbv zeta in Hs.
+  rewrite (u_not_raise_accepts u a kw H Hr) in Hs. destruct Hs as (qs & Hq & _ & Hgot & _). rewrite Hgot.
+  assert (Hlk : u_lk kw (o :: t) = Some (V q)) by (unfold u_lk; rewrite Hnone; exact Hglob).
+  apply kw_get_NoDup_In.
+  - rewrite map_fst_combine; [apply u_names_NoDup, H|]. unfold u_names. rewrite map_length.
+    apply (f_equal (@length _)) in Hq. unfold u_new in Hq. rewrite plan_length, vals_length in Hq. exact Hq.
+  - apply (plan_In (u_lk kw) (u_items u) a qs _ q Hq Hk Hlk).
+Qed.
+
+(** identity *)
+Lemma sel_params_vals_unit tri sel es : forallb edge_vals_ok es = true ->
+  forallb in_unit (map snd (sel_params tri sel es)) = true.
+Proof.
+  induction es as [|e r IH]; intros H; [reflexivity|]. cbn [forallb] in H. apply andb_true_iff in H. destruct H as [He Hr].
+  rewrite sel_params_cons, map_app, forallb_app, (IH Hr), andb_true_r. destruct (sel e); [|reflexivity].
+  rewrite pre_vals, edge_params_cases. unfold edge_vals_ok in He. apply andb_true_iff in He. destruct He as [H1 H2].
+  destruct (is_growth e); [|destruct (has_micro tri e)]; cbn [map snd forallb]; rewrite ?H1, ?H2; reflexivity.
+Qed.
+Lemma combine_fst_snd {A B} (l : list (A * B)) : combine (map fst l) (map snd l) = l.
+Proof. induction l as [|[a b] l IH]; [reflexivity|]. cbn. rewrite IH. reflexivity. Qed.
+Lemma dists_put_own maxt ds : forallb (fun td => dist_valid maxt (snd td)) ds = true ->
+  dists_put maxt ds (vals (map snd (dists_items ds))) = Some ds.
+Proof.
+  induction ds as [|[t d] r IH]; intros H; [reflexivity|]. cbn [forallb snd] in H. apply andb_true_iff in H. destruct H as [Hd Hr].
+  cbn [dists_put dists_items flat_map fst snd]. fold (dists_items r). rewrite map_app, vals_app, pre_vals.
+  rewrite firstn_app_len, skipn_app_len by (rewrite vals_length, map_length; reflexivity). rewrite (IH Hr).
+  destruct d as [p|f kws]; [reflexivity|]. cbn [dist_put dist_local]. rewrite map_map. cbn [snd]. rewrite unwrap_vals, combine_fst_snd.
+  cbn [dist_valid] in Hd. destruct (fam_weights f maxt kws); [reflexivity | discriminate].
+Qed.
+Lemma own_kwargs_lk u k x : u_names_ok u = true -> In (k, x) (u_items u) -> u_lk (own_kwargs (u_items u)) k = Some (V x).
+Proof.
+  intros H Hin. assert (Hk : In k (u_names u)) by (apply in_map_iff; exists (k, x); split; [reflexivity | exact Hin]).
+  destruct (u_names_nonempty u k Hk) as (o & t & ->). unfold u_lk.
+  assert (Hkeys : map fst (own_kwargs (u_items u)) = u_names u) by (unfold own_kwargs, u_names; rewrite map_map; reflexivity).
+  rewrite kw_last_NoDup by (rewrite Hkeys; apply u_names_NoDup, H).
+  rewrite (kw_get_NoDup_In _ (V x)); [reflexivity | rewrite Hkeys; apply u_names_NoDup, H |].
+  unfold own_kwargs. apply in_map_iff. exists (o :: t, x). split; [reflexivity | exact Hin].
+Qed.
+Lemma plan_own lk ps : forall a, (forall k x, In (k, x) ps -> lk k = Some (V x)) -> plan lk ps a = vals (map snd ps).
+Proof.
+  induction ps as [|[k x] r IH]; intros a H; [reflexivity|]. cbn [plan map snd vals].
+  rewrite (H k x) by (left; reflexivity). cbn [pick]. f_equal. apply IH. intros k' x' Hin. apply H. right. exact Hin.
+Qed.
+
+Theorem uni_set_own_params_is_identity : C10_uni_set_own_params_is_identity_stmt.
+Proof.
+  intros u Hwf. unfold u_wf in Hwf. apply andb_true_iff in Hwf. destruct Hwf as [H Hv]. rewrite (u_got_spec u H).
+  unfold u_vals_ok in Hv. apply andb_true_iff in Hv. destruct Hv as [Hve Hvd].
+  set (kw := own_kwargs (u_items u)).
+  assert (Hin : forall part, (forall kx, In kx part -> In kx (u_items u)) -> forall a, plan (u_lk kw) part a = vals (map snd part)).
+  { intros part Hsub a. apply plan_own. intros k x Hkx. apply own_kwargs_lk; [exact H | apply Hsub, Hkx]. }
+  rewrite (u_set_params_ok u [] kw (map snd (u_tumor_items u)) (map snd (u_lnl_items u)) (u_dists u) H).
+  - f_equal; [|destruct (length (u_items u)); reflexivity].
+    unfold u_put, u_tumor_items, u_lnl_items. rewrite edges_put_own, edges_put_own.
+    destruct u as [[b n es] m ds mt]. reflexivity.
+  - rewrite Hin by (intros kx Hkx; unfold u_items; rewrite in_app_iff; left; exact Hkx).
+    apply all_unit_vals, sel_params_vals_unit, Hve.
+  - rewrite Hin by (intros kx Hkx; unfold u_items; rewrite !in_app_iff; right; left; exact Hkx).
+    apply all_unit_vals, sel_params_vals_unit, Hve.
+  - rewrite Hin by (intros kx Hkx; unfold u_items; rewrite !in_app_iff; right; right; exact Hkx).
+    apply dists_put_own, Hvd.
+Qed.
+
+(** unknown names *)
+Lemma kw_last_nil' {A} k : @kw_last A k [] = None.
+Proof. reflexivity. Qed.
+Lemma lk_of_nil X k : lk_of X [] k = None.
+Proof. destruct k as [|n t]; [reflexivity|]. unfold lk_of, eff. rewrite !kw_last_nil'. destruct (mem (head_of t) X); reflexivity. Qed.
+
+Lemma graph_set_unknown sel g a kw :
+  (forall s, In s reserved -> ~ In s (map e_name (filter sel (g_edges g)))) ->
+  (forall k, In k (map fst (sel_params (g_tri g) sel (g_edges g))) -> u_lk kw k = None) ->
+  graph_set_params_sel sel g a kw = graph_set_params_sel sel g a [].
+Proof.
+  intros HX Hun. unfold graph_set_params_sel. set (X := map e_name (filter sel (g_edges g))).
+  destruct (unflatten_and_split kw X) as [s1 g1] eqn:H1. destruct (unflatten_and_split [] X) as [s2 g2] eqn:H2.
+  rewrite (set_edges_for_ext (g_tri g) sel s1 g1 s2 g2 (g_edges g) a); [reflexivity|].
+  intros e t Hin Hs Ht.
+  rewrite (graph_lookup sel g kw HX s1 g1 H1 e t Hin Hs), (graph_lookup sel g [] HX s2 g2 H2 e t Hin Hs), lk_of_nil.
+  assert (Hk : In (e_name e :: t) (map fst (sel_params (g_tri g) sel (g_edges g)))).
+  { unfold sel_params. rewrite map_flat_map'. apply in_flat_map. exists e. split; [exact Hin|]. rewrite Hs, pre_keys.
+    apply in_map_iff. exists t. split; [reflexivity | exact Ht]. }
+  pose proof (sel_params_heads _ _ _ _ Hk) as (e0 & s & _ & _ & Heq & Hs0). injection Heq as _ ->.
+  rewrite lk_of_u_lk; [apply Hun, Hk|]. apply HX. cbn in Hs0. cbn. intuition.
+Qed.
+Lemma graph_set_shape sel g a kw :
+  shape (g_edges (fst (graph_set_params_sel sel g a kw))) = shape (g_edges g)
+  /\ g_base (fst (graph_set_params_sel sel g a kw)) = g_base g.
+Proof.
+  unfold graph_set_params_sel. destruct (unflatten_and_split _ _) as [s1 g1].
+  pose proof (set_edges_for_shape (g_tri g) sel s1 g1 (g_edges g) a) as Hs.
+  destruct (set_edges_for _ _ _ _ _ _) as [es o]. cbn [fst] in *. split; [exact Hs | reflexivity].
+Qed.
+
+Lemma u_dist_set_unknown u a kw : u_names_ok u = true ->
+  (forall k, In k (map fst (u_dist_items u)) -> u_lk kw k = None) ->
+  u_set_distribution_params u a kw = u_set_distribution_params u a [].
+Proof.
+  intros H Hun. unfold u_set_distribution_params. set (X := map fst (u_dists u)).
+  destruct (unflatten_and_split kw X) as [s1 g1] eqn:H1. destruct (unflatten_and_split [] X) as [s2 g2] eqn:H2.
+  rewrite (set_dists_for_ext (u_maxt u) s1 g1 s2 g2 (u_dists u) a); [reflexivity|].
+  intros td s Hin Hs.
+  assert (He : ~ In "" X) by (apply (in_reserved_not_tstage u "" H); cbn; tauto).
+  rewrite (obj_kwargs_lookup kw X (fst td) [s] s1 g1 He H1) by (apply in_map, Hin).
+  rewrite (obj_kwargs_lookup [] X (fst td) [s] s2 g2 He H2) by (apply in_map, Hin).
+  change (lk_of X kw [fst td; s] = lk_of X [] [fst td; s]). rewrite lk_of_nil.
+  assert (Hkw : In s (dist_kw_names (u_dists u))).
+  { unfold dist_kw_names in *. apply in_flat_map. exists td. split; [exact Hin|]. cbn [flat_map] in Hs. rewrite app_nil_r in Hs. exact Hs. }
+  rewrite lk_of_u_lk by (apply (names_ok_kw_not_tstage u s H Hkw)). apply Hun.
+  unfold u_dist_items, dists_items. rewrite map_flat_map'. apply in_flat_map. exists td. split; [exact Hin|].
+  rewrite pre_keys. apply in_map_iff. exists [s]. split; [reflexivity|].
+  unfold dist_kw_names in Hs. cbn [flat_map] in Hs. rewrite app_nil_r in Hs.
+  destruct (snd td) as [p|f kws]; [destruct Hs|]. cbn [dist_local]. rewrite map_map. cbn [fst].
+  apply in_map_iff in Hs. destruct Hs as (kv & <- & Hkv). apply in_map_iff. exists kv. split; [reflexivity | exact Hkv].
+Qed.
+
+Theorem uni_unknown_names_ignored : C10_uni_unknown_names_ignored_stmt.
+Proof.
+  intros u a kw H Hun.
+  assert (HunT : forall k, In k (map fst (u_tumor_items u)) -> u_lk kw k = None)
+    by (intros k Hk; apply Hun; unfold u_names, u_items; rewrite !map_app, !in_app_iff; tauto).
+  assert (HunL : forall k, In k (map fst (u_lnl_items u)) -> u_lk kw k = None)
+    by (intros k Hk; apply Hun; unfold u_names, u_items; rewrite !map_app, !in_app_iff; tauto).
+  assert (HunD : forall k, In k (map fst (u_dist_items u)) -> u_lk kw k = None)
+    by (intros k Hk; apply Hun; unfold u_names, u_items; rewrite !map_app, !in_app_iff; tauto).
+  unfold u_set_params, u_set_spread_params, u_set_tumor_spread_params, u_set_lnl_spread_params, lift_graph.
+  rewrite (graph_set_unknown is_tumor_spread (u_graph u) a kw (fun s => reserved_not_filter u _ s H) HunT).
+  pose proof (graph_set_shape is_tumor_spread (u_graph u) a []) as [Hsh Hb].
+  destruct (graph_set_params_sel is_tumor_spread (u_graph u) a []) as [g1 [a1|]]; cbn [fst snd andthen u_with_graph u_graph] in *; [|reflexivity].
+  assert (Htri : g_tri g1 = u_tri u) by (unfold u_tri, g_tri; rewrite Hb; reflexivity).
+  rewrite (graph_set_unknown sel_lnl g1 a1 kw).
+  - pose proof (graph_set_shape sel_lnl g1 a1 []) as [Hsh2 Hb2].
+    destruct (graph_set_params_sel sel_lnl g1 a1 []) as [g2 [a2|]]; cbn [fst snd andthen] in *; [|reflexivity].
+    apply u_dist_set_unknown.
+    + unfold u_names_ok, u_edge_names, u_edges, u_tstages in *. cbn [u_with_graph u_graph u_dists].
+      rewrite (shape_names _ _ Hsh2), (shape_names _ _ Hsh). exact H.
+    + exact HunD.
+  - intros s Hs. rewrite (shape_filter_names sel_lnl _ kind_sel_lnl _ Hsh). apply reserved_not_filter; assumption.
+  - intros k Hk. apply HunL. unfold u_lnl_items, u_edges. rewrite Htri in Hk.
+    rewrite <- (shape_sel_keys (u_tri u) sel_lnl _ kind_sel_lnl _ Hsh). exact Hk.
+Qed.
+
+(** acceptance of unit vectors (binomial families) *)
+Definition fam0_only (ds : list (string * dist)) : bool :=
+  forallb (fun td => match snd td with Param f _ => Nat.eqb f 0 | Frozen _ => true end) ds.
+Lemma fam0_accepts maxt kws : forallb in_unit (map snd kws) = true -> fam_weights 0 maxt kws <> None.
+Proof.
+  intros H. cbn [fam_weights]. unfold Dist.kw_get.
+  assert (Hp : in_unit (match dict_get "p" kws with Some v => v | None => qc 1 2 end) = true).
+  { induction kws as [|[k v] r IH]; [vm_compute; reflexivity|]. cbn [map snd forallb] in H. apply andb_true_iff in H. destruct H as [Hv Hr].
+    cbn [dict_get]. destruct (str_eqb "p" k); [exact Hv | apply IH, Hr]. }
+  unfold in_unit in Hp. rewrite Hp. discriminate.
+Qed.
+Lemma dists_put_fam0 maxt ds : fam0_only ds = true -> forall qs, length qs = length (dists_items ds) ->
+  forallb in_unit qs = true -> dists_put maxt ds (vals qs) <> None.
+Proof.
+  induction ds as [|[t d] r IH]; intros Hf qs Hl Hu; [discriminate|].
+  cbn [fam0_only forallb snd] in Hf. apply andb_true_iff in Hf. destruct Hf as [Hd Hr].
+  cbn [dists_put]. cbn [dists_items flat_map fst snd] in Hl. fold (dists_items r) in Hl. rewrite app_length, pre_length in Hl.
+  unfold vals. rewrite firstn_map, skipn_map. fold (vals (firstn (length (dist_local d)) qs)) (vals (skipn (length (dist_local d)) qs)).
+  specialize (IH Hr (skipn (length (dist_local d)) qs)).
+  destruct (dists_put maxt r (vals (skipn (length (dist_local d)) qs))).
+  - destruct d as [p|f kws]; [discriminate|]. cbn [dist_put]. rewrite unwrap_vals.
+    apply Nat.eqb_eq in Hd. subst f. cbn [dist_local] in *. rewrite map_length in *.
+    pose proof (fam0_accepts maxt (combine (map fst kws) (firstn (length kws) qs))) as Ha.
+    destruct (fam_weights 0 maxt _); [discriminate|]. exfalso. apply Ha; [|reflexivity].
+    rewrite map_snd_combine by (rewrite map_length, firstn_length; lia). apply forallb_firstn, Hu.
+  - exfalso. apply IH; [rewrite skipn_length; lia | apply forallb_skipn, Hu | reflexivity].
+Qed.
+
+Lemma u_accepts_unit u v : u_names_ok u = true -> length v = length (u_items u) -> forallb in_unit v = true ->
+  fam0_only (u_dists u) = true -> u_accepts u (vals v) = true.
+Proof.
+  intros H Hl Hu Hf. unfold u_accepts, vals. rewrite firstn_map, skipn_map. fold (vals (firstn (u_num_spread u) v)) (vals (skipn (u_num_spread u) v)).
+  rewrite all_unit_vals by (apply forallb_firstn, Hu). cbn [is_some andb].
+  pose proof (dists_put_fam0 (u_maxt u) (u_dists u) Hf (skipn (u_num_spread u) v)) as Hd.
+  destruct (dists_put _ _ _); [reflexivity|]. exfalso. apply Hd; [|apply forallb_skipn, Hu | reflexivity].
+  rewrite skipn_length, Hl. unfold u_items, u_num_spread. rewrite !app_length. fold (u_dist_items u). unfold u_dist_items. lia.
+Qed.
+
+Theorem uni_unit_vectors_accepted : C10_uni_unit_vectors_accepted_stmt.
+Proof.
+  intros u v rest H Hl Hu Hf. fold (fam0_only (u_dists u)) in Hf. pose proof (u_accepts_unit u v H Hl Hu Hf) as Hacc. split.
+  - assert (Hnew : u_new u (vals v ++ rest) [] = vals v).
+    { unfold u_new. apply plan_no_kw; [intros; apply u_lk_nil | exact Hl]. }
+    pose proof (uni_set_spec u (vals v ++ rest) [] H) as Hs. cbv zeta in Hs. rewrite Hnew, Hacc in Hs.
+    destruct Hs as (qs & _ & Hsnd & _). rewrite Hsnd. discriminate.
+  - assert (Hnew : u_new u [] (kw_of (u_names u) v) = vals v).
+    { unfold u_new. apply plan_all_kw; [rewrite vals_length; exact Hl|]. intros k x Hin. apply u_lk_kw_of; assumption. }
+    pose proof (uni_set_spec u [] (kw_of (u_names u) v) H) as Hs. cbv zeta in Hs. rewrite Hnew, Hacc in Hs.
+    destruct Hs as (qs & _ & Hsnd & _). rewrite Hsnd. discriminate.
+Qed.
+
+(** * Known findings: refutations by concrete witnesses *)
+Definition C10_g2 : graph :=
+  force_graph (build_graph 2 [ (("tumor", "T"), CList ["II"; "III"]); (("lnl", "II"), CList ["III"]); (("lnl", "III"), CList []) ]).
+Definition C10_u2 : uni := new_uni C10_g2 [] 3.
+Definition C10_v6 : list Qc := [qc 1 10; qc 2 10; qc 3 10; qc 4 10; qc 5 10; qc 6 10].
+
+Theorem positional_order_refuted : C10_positional_order_refuted_stmt.
+Proof.
+  exists (new_bilateral C10_u2 false false), C10_v6.
+  split; [vm_compute; reflexivity|]. split; [reflexivity|]. split; [reflexivity|].
+  split; [vm_compute; reflexivity|]. split; [vm_compute; reflexivity|]. split; [vm_compute; reflexivity|].
+  split.
+  - intros H. apply (f_equal (map qout)) in H. vm_compute in H. discriminate H.
+  - apply (f_equal (map qout)) || idtac. vm_compute. reflexivity.
+Qed.
+
+Theorem midline_positional_order_refuted : C10_midline_positional_order_refuted_stmt.
+Proof.
+  exists (new_midline C10_u2 true false true true false), (C10_v6 ++ [qc 7 10; qc 8 10]).
+  split; [reflexivity|]. split; [vm_compute; reflexivity|]. split; [vm_compute; reflexivity|]. split; [vm_compute; reflexivity|].
+  intros H. apply (f_equal (option_map (map qout))) in H. vm_compute in H. discriminate H.
+Qed.
+
+Theorem hpv_roundtrip_refuted : C10_hpv_roundtrip_refuted_stmt.
+Proof.
+  exists (new_hpv C10_u2), [["hpv"; "TtoII"; "spread"]; ["hpv"; "TtoIII"; "spread"]; ["nohpv"; "TtoII"; "spread"]; ["IItoIII"; "spread"]],
+    [qc 1 10; qc 2 10; qc 3 10; qc 4 10].
+  split; [vm_compute; reflexivity|]. split; [reflexivity|]. split; [vm_compute; reflexivity|]. split; [vm_compute; reflexivity|].
+  split; [intros H; apply (f_equal (option_map (map qout))) in H; vm_compute in H; discriminate H|].
+  split; [vm_compute; reflexivity|].
+  intros H. apply (f_equal (option_map (map qout))) in H. vm_compute in H. discriminate H.
 Qed.
